@@ -78,6 +78,9 @@ class RunEnv:
                 env.writer_args = {"snaplen": snaplen}
 
             def writepkt(self, pkt, ts=None):
+                import decimal
+                if isinstance(ts, decimal.Decimal):       # dpkt: intround(ts * 1e6)
+                    raise TypeError("unsupported operand type(s) for *: 'decimal.Decimal' and 'float'")
                 env.written.append((pkt, ts))
 
         class NS:
